@@ -118,6 +118,11 @@ func (r *scanner) rangeWithLimit(ctx context.Context, start []byte, end []byte, 
 	if err != nil {
 		return nil, err
 	}
+	// not every engine reads at the snapshot taken above, check again that no compaction went past the revision meanwhile
+	err = r.checkCompactRace(ctx, revision, false)
+	if err != nil {
+		return nil, err
+	}
 	return receiver.result, nil
 }
 
@@ -294,6 +299,15 @@ func (r *scanner) scan(ctx context.Context, start []byte, end []byte, revision u
 	for _, e := range errList {
 		if e != nil {
 			return 0, e
+		}
+	}
+
+	if !compact {
+		// memkv and badger do not read at the snapshot taken before the first check, so a compaction which started
+		// after it may have removed versions this scan should have seen. compaction raises the compact revision
+		// before it removes anything, so checking again after the scan detects it
+		if err = r.checkCompactRace(ctx, revision, false); err != nil {
+			return 0, err
 		}
 	}
 
